@@ -423,10 +423,10 @@ def survivor_probe(chk, extra):
 
 
 def targeted(chk, cases, bad, extra):
-    n = 260 if chk.tier == "quick" else 4000
+    n = 225 if chk.tier == "quick" else 4000
     n_ops = 7 if chk.tier == "quick" else 10
     mine = [c02_gen.gen_case_c02(chk.rng, n_ops) for _ in range(n)]
-    mine += [c02_gen.gen_case_inv(chk.rng) for _ in range(60 if chk.tier == "quick" else 1500)]
+    mine += [c02_gen.gen_case_inv(chk.rng) for _ in range(50 if chk.tier == "quick" else 1500)]
     c02_gen.report(chk, "C02", 4 | 32, mine, extra, "targeted_histories")
     c02_gen.report_python_oracles(chk, "C02", list(cases) + mine, extra, "python_oracles")
     dnc_subclass_probe(chk, extra)
